@@ -29,6 +29,7 @@ DECIDED = [
     "policy value for already_tried + 1",
     "R-C04-ROUTE (rounding): the due time of a retry is not moved earlier by its conversion for the broker (C05's rounding lattice and the whole-duration rule reused)",
     "R-C04-STEP (stored): Redis requeue overwrites the stored parameters (HSET), so the incremented counter is what the next delivery sees",
+    "R-C04-STEP (round 5): RabbitMQ terminal operations pop and use the delivery tag of key.id_; requeue acks the failed delivery before it publishes the retry copy (same id: the copy's delivery would overwrite the tag)",
 ]
 NOT_DECIDED = ["delivery time versus the policy value as a measured quantity", "user-supplied retry policies"]
 ASSUMPTIONS = ["attempt counting is by induction over deliveries: each delivery applies the transfer function exactly once (C02)"]
@@ -45,6 +46,9 @@ def run(ctx: Ctx) -> None:
     from .brokers import redis_op_fields
 
     redis_op_fields(ctx, "R-C04-STEP")  # the parameters with the incremented counter are really stored on requeue (HSET overwrites)
+    from .brokers import rabbit_rules
+
+    rabbit_rules(ctx, rule_t="R-C04-STEP", rule_a="R-C04-STEP", atomic_finding=False)  # the retry copy (counter k+1) is published after the failed delivery's tag was used: the ack never hits the new copy
     from .C05 import rounding
     from .delay import whole_duration_rule
 
